@@ -529,6 +529,8 @@ struct Viol {
     key: String,
     what: String,
     step: usize,
+    /// the PSBT (base64) right before the offending operation
+    before: Option<String>,
 }
 
 fn is_final(a: &psbt::Input) -> bool { a.final_script_sig.is_some() || a.final_script_witness.is_some() }
@@ -548,7 +550,7 @@ fn verify_final_fields(cx: &Ctx, j: usize, a: &psbt::Input) -> Result<(), String
 }
 
 fn monitor(cx: &Ctx, step: usize, op: &Op, before: &Psbt, after: &Psbt, res: &Res, externally_final: &[bool], out: &mut Vec<Viol>) {
-    let mut v = |key: &str, what: String| out.push(Viol { key: key.to_string(), what, step });
+    let mut v = |key: &str, what: String| out.push(Viol { key: key.to_string(), what, step, before: None });
     if *res == Res::Panic {
         v("panic", format!("{} panicked", op.kind()));
     }
@@ -681,7 +683,7 @@ fn monitor(cx: &Ctx, step: usize, op: &Op, before: &Psbt, after: &Psbt, res: &Re
 /// extract: the transaction is the unsigned one plus the final fields, and every input verifies
 fn monitor_extract(cx: &Ctx, step: usize, psbt: &Psbt, out: &mut Vec<Viol>) {
     if let Ok(tx) = psbt.extract(&cx.vsecp) {
-        let mut v = |key: &str, what: String| out.push(Viol { key: key.to_string(), what, step });
+        let mut v = |key: &str, what: String| out.push(Viol { key: key.to_string(), what, step, before: None });
         let u = &psbt.unsigned_tx;
         if tx.version != u.version || tx.lock_time != u.lock_time || tx.output != u.output || tx.input.len() != u.input.len() {
             v("extract-mismatch", "extracted transaction differs from the unsigned transaction outside scriptSig/witness".into());
@@ -868,9 +870,14 @@ fn run_history(
             let res2 = exec(cx, &mut again, op);
             st.idem_checks += 1;
             if again != psbt {
-                viols.push(Viol { key: "not-idempotent".into(), what: format!("repeating {} changed the PSBT again", op.kind()), step: t });
+                viols.push(Viol { key: "not-idempotent".into(), what: format!("repeating {} changed the PSBT again", op.kind()), step: t, before: None });
             } else if res2 != res {
-                viols.push(Viol { key: "not-idempotent".into(), what: format!("repeating {} returned {:?} after {:?}", op.kind(), res2, res), step: t });
+                viols.push(Viol { key: "not-idempotent".into(), what: format!("repeating {} returned {:?} after {:?}", op.kind(), res2, res), step: t, before: None });
+            }
+        }
+        for v in viols.iter_mut() {
+            if v.step == t && v.before.is_none() {
+                v.before = Some(before.to_string());
             }
         }
         obs.push(J::obj(vec![("r", res.json()), ("st", abs_state(&psbt, int, lines))]));
@@ -920,6 +927,7 @@ fn run_history(
                 key: "order-dependent".into(),
                 what: "adding the same signatures/fields in reverse order gave a different PSBT or different finalize/extract results".into(),
                 step: ops.len(),
+                before: None,
             });
         }
     }
@@ -937,7 +945,7 @@ fn run_history(
             "viol",
             J::A(viols
                 .iter()
-                .map(|v| J::obj(vec![("key", J::S(v.key.clone())), ("what", J::S(v.what.clone())), ("step", J::N(v.step as i64))]))
+                .map(|v| J::obj(vec![("key", J::S(v.key.clone())), ("what", J::S(v.what.clone())), ("step", J::N(v.step as i64)), ("psbt_before_step_base64", J::opt_s(v.before.clone()))]))
                 .collect()),
         ),
     ]);
@@ -1235,7 +1243,7 @@ pub fn run(args: &[String]) {
         std::panic::set_hook(Box::new(|_| {}));
     }
     let mut master = Rng(seed ^ 0xC14C_14C1_4C14_C14C);
-    let pool = make_pool(&mut master.fork(), 14);
+    let pool = make_pool(&mut master.fork(), 44);
     let mut int = Interner { map: HashMap::new() };
     let mut st = Stats {
         histories: 0,
